@@ -73,6 +73,15 @@ Proof.
 Qed.
 Print Assumptions C03_kf2_refuted.
 
+(* the class cannot simply be widened to "no Null variant, no optional variant": with an Array variant whose element
+   type was merged later, [1], [null], "s" gives OneOf[String | Array<Option<Number>>], which rejects [1] *)
+Theorem C03_wider_class_refuted : exists ds s d, from_sources_tree ds = Ok s /\ In d ds /\
+  nonopt_variants s = true /\ scalar_oneofs s = false /\ is_superset_tree s d = false.
+Proof.
+  exists [JArr [JNum]; JArr [JNull]; JStr]. eexists. exists (JArr [JNum]). vm_compute. repeat split. left. reflexivity.
+Qed.
+Print Assumptions C03_wider_class_refuted.
+
 (* on TEXTS: a OneOf-free shape inferred from source texts accepts every one of them, both forms *)
 Theorem C03_text_oneof_free : forall srcs ds sh, Forall2 text_of srcs ds ->
   from_sources_m cfg_now srcs = Ok sh -> oneof_free sh = true ->
